@@ -346,6 +346,11 @@ def run_check(pid, tier, seed):
             for f in failures_all:
                 if f.get("fn") in fns:
                     others.update(f.get("props", []))
+            # ... and every property the failing functions carry (the edit may break one whose own evidence is a frame or a
+            # bounded unit, not a Verus clause)
+            for ff in mp["functions"]:
+                if ff["fn"] in fns:
+                    others.update(ff["props"])
             others.discard(pid)
             confirmed = [q for q in sorted(others) if replaydriver.search_cached(q, seed)[0]]
             coverage["triage"] = {"verifier_only_failures": sorted(set(l for f in vv for l in f["labels"])) or sorted(str(x) for x in fns),
